@@ -45,27 +45,30 @@ Section Gen.
   Fixpoint wf_comp (outer : list fieldref) (c : ir_component) {struct c} : Prop :=
     match c with
     | mkComp _ vs ss _ =>
-        (fix go (ss : list step) : Prop :=
-           match ss with
+        (fix go (todo : list step) : Prop :=
+           match todo with
            | [] => True
            | SEdge e :: r => edge_ok e = true /\ go r
            | SFold h sub :: r =>
-               (no_min_limit args vs h sub /\ disjoint_keys (fo_imported h) outer /\
+               (no_min_limit args vs ss h sub /\ disjoint_keys (fo_imported h) outer /\
                 wf_comp (outer ++ fo_imported h) sub) /\ go r
            end) ss
     end.
 
-  Fixpoint wf_steps (outer : list fieldref) (vs : list ir_vertex) (todo : list step) : Prop :=
+  Fixpoint wf_steps (outer : list fieldref) (vs : list ir_vertex) (ss : list step) (todo : list step) : Prop :=
     match todo with
     | [] => True
-    | SEdge e :: r => edge_ok e = true /\ wf_steps outer vs r
+    | SEdge e :: r => edge_ok e = true /\ wf_steps outer vs ss r
     | SFold h sub :: r =>
-        (no_min_limit args vs h sub /\ disjoint_keys (fo_imported h) outer /\
-         wf_comp (outer ++ fo_imported h) sub) /\ wf_steps outer vs r
+        (no_min_limit args vs ss h sub /\ disjoint_keys (fo_imported h) outer /\
+         wf_comp (outer ++ fo_imported h) sub) /\ wf_steps outer vs ss r
     end.
 
-  Lemma wf_comp_steps outer root vs ss outs : wf_comp outer (mkComp root vs ss outs) <-> wf_steps outer vs ss.
-  Proof. cbn [wf_comp]. induction ss as [|[e|h sub] r IH]; cbn [wf_steps]; [tauto| |]; rewrite IH; tauto. Qed.
+  Lemma wf_comp_steps outer root vs ss outs : wf_comp outer (mkComp root vs ss outs) <-> wf_steps outer vs ss ss.
+  Proof.
+    cbn [wf_comp]. generalize ss at 1 3 as whole. intros whole.
+    induction ss as [|[e|h sub] r IH]; cbn [wf_steps]; [tauto| |]; rewrite IH; tauto.
+  Qed.
 
   Lemma key_fresh_of outer imp ts :
     keys_within outer imp -> disjoint_keys ts outer -> Forall (key_fresh imp) ts.
@@ -118,7 +121,7 @@ Section Gen.
                            Forall (clean imp') cs -> Forall fresh cs ->
                            compute_component re_match g args sub cs = Ok r ->
                            map asg_of r = flat_map (fun x => sem_comp re_match g args sub imp' (active x)) cs)) todo ->
-    wf_steps outer vs todo -> keys_within outer imp ->
+    wf_steps outer vs ss todo -> keys_within outer imp ->
     forall cs r, Forall (clean imp) cs ->
       exec_steps re_match g args vs ss todo cs = Ok r ->
       map asg_of r = sem_steps re_match g args vs ss imp todo (map asg_of cs) /\ Forall (clean imp) r.
@@ -243,7 +246,7 @@ Section Gen.
                            compute_component re_match g args sub cs = Ok r ->
                            map asg_of r = flat_map (fun x => sem_comp re_match g args sub imp' (active x)) cs /\
                            Forall (FV g sub) r /\ Forall (clean imp') r)) todo ->
-    wf_steps outer vs todo -> keys_within outer imp ->
+    wf_steps outer vs ss todo -> keys_within outer imp ->
     wf_out_steps todo -> incl todo ss -> NoDup (steps_keys ss) -> NoDup (steps_eids ss) ->
     forall cs r, Forall (clean imp) cs -> Forall (FV g (mkComp root vs ss outs)) cs ->
       exec_steps re_match g args vs ss todo cs = Ok r ->
